@@ -561,6 +561,17 @@ theorem printf_done_printfN (fmt : List Char) (args : List Arg) (out : List Char
     printfN fmt args = .done out pc [] ∨ printfN fmt args = .intovf :=
   loop_to_loopN _ fmt args [] 0 [] out pc h
 
+/-- BELOW THE BOUND: when the whole output has at most INT_MAX characters and no
+directive met on the way has a literal width/precision beyond INT_MAX or a `*`
+width of INT_MIN (`guardFree`; by `literal_number_fits` every literal of at most
+9 digits is fine), the `int`-accurate engine finishes with exactly what the
+unbounded model computes: there the model's `Int` IS the C `int` -/
+theorem printfN_below_bound (fmt : List Char) (args : List Arg) (out : List Char) (pc : Int)
+    (h : printf fmt args = .done out pc) (hb : (out.length : Int) ≤ INT_MAX)
+    (hg : guardFree (fmt.length + 1) fmt args = true) :
+    printfN fmt args = .done out pc [] :=
+  loop_to_loopN_below _ fmt args [] 0 [] out pc rfl h hb hg
+
 /-- `printfN` terminates too -/
 theorem printfN_terminates (fmt : List Char) (args : List Arg) : printfN fmt args ≠ .diverged :=
   loopN_no_diverge _ fmt args [] 0 [] (Nat.lt_succ_self _)
@@ -642,6 +653,11 @@ example : ¬ IsoSupported "%#x".toList [.int 0] ∧ IsoDefined "%#x".toList [.in
     ¬ IsoSupported "%c".toList [.int 256] ∧ IsoDefined "%c".toList [.int 256] ∧
     ¬ IsoDefined "%lc".toList [.int 65] ∧ ¬ IsoDefined "%#d".toList [.int 1] ∧ ¬ IsoDefined "%5%".toList [] := by
   refine ⟨?_, ?_, ?_, ?_, ?_, ?_, ?_⟩ <;> decide
+
+-- printfN_below_bound: the guard holds on an ordinary format, fails on a 10-digit literal
+example : guardFree 30 "a=%-*.3lld|%+05d|%.2s".toList
+    [.int 8, .long (BitVec.ofInt 64 (-42)), .int 7, .str ['x', 'y', 'z']] = true := by decide
+example : guardFree 20 "%4294967301d".toList [.int 1] = false := by decide
 
 -- printfN_count / printfN_n_stores_count / printfN_refines_printf: a finished run with a store, one without
 example : printfN "x=%d%n|".toList [.int 42, .ptr 8] = .done "x=42|".toList 5 [⟨8, 4, 4, 4⟩] := by decide
